@@ -343,6 +343,24 @@ func mutantsForValue(s *sink, name string, classes map[string]bool, capPer int, 
 			if lp.N > 0 {
 				news = append(news, int64(lp.N-1))
 			}
+			if lp.Kind == "str1" {
+				// the same string announced by a 4-byte length (STRING4 is admissible for every string): its own length (a valid
+				// alternative encoding), one more than remains, and lengths with the top bit set, which are the ones a
+				// narrowing to a signed 32-bit integer turns negative
+				h := lp.Start - 1
+				if lp.Start >= 2 && b[lp.Start-2] == 0xF0|tSTR1 && b[lp.Start-1] >= 15 {
+					h = lp.Start - 2
+				}
+				if h >= 0 && int(b[h]&0x0f) == tSTR1 {
+					for _, nv := range []int64{int64(lp.N), int64(rem + 1), 1 << 31, 1<<31 + int64(lp.N), 1<<32 - 1, 1<<32 - 2} {
+						nb := append([]byte(nil), b[:lp.Start]...)
+						nb[h] = nb[h]&0xf0 | byte(tSTR4)
+						nb = append(nb, byte(nv>>24), byte(nv>>16), byte(nv>>8), byte(nv))
+						nb = append(nb, b[lp.End:]...)
+						s.emit("inflate", name, nb, nil, false, "str1->str4")
+					}
+				}
+			}
 			for _, nv := range news {
 				var enc []byte
 				switch lp.Kind {
